@@ -1,1 +1,6 @@
 import TaskModel.Resolve.Glob
+import TaskModel.Quote.Utf8
+import TaskModel.Quote.Quote
+import TaskModel.Quote.Words
+import TaskModel.Quote.Args
+import TaskModel.Quote.Init
